@@ -68,7 +68,7 @@ C33_RecursionSites == {"build_qualified_type_decl", "build_array_type_def", "bui
                        "build_typedef_decl", "build_pointer_type_def", "build_reference_type_def", "build_or_get_type_decl",
                        "get_type_name", "get_pretty_representation", "get_qualified_name", "get_name"}
 KF_C33_Id(ev) ==
-  IF ev.kind \in {"assert", "abort"} /\ ev.site \in C33_AssertSites /\ ev.action # "Truncate" THEN "C33-reader-asserts"
+  IF ev.kind \in {"assert", "abort"} /\ ev.site \in C33_AssertSites /\ (ev.action # "Truncate" \/ ev.wf) THEN "C33-reader-asserts"
   ELSE IF ev.kind = "stack-overflow" /\ ev.site \in C33_RecursionSites /\ ev.action \in {"Retarget", "DanglingRef", "DuplicateId", "Clone"}
        THEN "C33-reference-cycles"
   ELSE IF ev.action = "Retarget" /\ ev.site \in {"get_pretty_representation_of_declarator", "get_pretty_representation"}
